@@ -9,9 +9,9 @@ from harness.core import cfg_text, Machinery
 from harness.drivers import rekey as rk
 
 
-def consts(mode, a_client, inflight=("plain", "wants_user_reply", "wants_direct_reply"), n=2, u=2, lock=True, ungated=False):
+def consts(mode, a_client, inflight=("plain", "wants_user_reply", "wants_direct_reply"), n=2, u=2, lock=True, ungated=False, skips=False):
     return {"ReplyMode": mode, "AIsClient": a_client, "Inflight": set(inflight), "MaxInflight": n, "UserMsgs": u,
-            "KexinitTakesLock": lock, "UngatedUser": ungated}
+            "KexinitTakesLock": lock, "UngatedUser": ungated, "FlushSkips": skips}
 
 
 INVS = ["KexQuiet", "SessionStaysUp", "NoSelfWait"]
@@ -35,6 +35,9 @@ def run(c):
     c.mc("Rekey", cfg_text(constants=consts("deferred", True, inflight=("plain",), n=1, ungated=True), invariants=INVS, deadlock=True),
          expect="KexQuiet|SessionStaysUp", name="sensitivity: a user-level send that does not consult clear_to_send (fire-and-forget request, keepalive)")
 
+    c.mc("Rekey", cfg_text(constants=consts("deferred", True, inflight=("wants_user_reply", "wants_direct_reply"), n=2, u=0, skips=True), invariants=INVS, deadlock=True),
+         expect="<deadlock>", name="sensitivity: the flush at NEWKEYS skips every second held-back reply (a request stays unanswered)")
+
     rnd = random.Random(c.seed)
     batch = []
     kinds = [k for k in rk.KINDS]
@@ -53,6 +56,12 @@ def run(c):
             obs = rk.run_scenario(init, "gated_user_send")
             batch.append(obs)
             c.case(key=(init, "gated_user_send", 1), sample=obs if init == "client" and rep == 0 else None)
+    # two (three) requests that want a reply cross the initiator's KEXINIT: every one of them must be answered after the exchange
+    for init in ("client", "server"):
+        for nreq in (2, 3):
+            obs = rk.run_scenario(init, "requests_x%d" % nreq)
+            batch.append(obs)
+            c.case(key=(init, "requests_x%d" % nreq, 1))
     # every user-level sending API of the initiator used from application threads during the exchange, and its keepalive timer firing
     for init in ("client", "server"):
         for apis in ("user_apis", "keepalive_timer"):
